@@ -19,7 +19,9 @@ THEOREMS = ['C20_sem_extensional_body', 'C20_sem_extensional_code', 'C20_sem_ext
             'C20_yield_value_irrelevant', 'C20_native_equals_compiled_facts', 'C20_facts_compile', 'C20_subset_interchangeable', 'C20_program_with_python_predicates', 'C20_program_with_python_predicates_all_styles', 'C20_python_predicates_compute_clause_semantics', 'C20_dynamic_facts_first', 'C20_python_predicate_equals_dynamic_facts',
             'C20_args_in_call_order', 'C20_args_in_call_order_variadic', 'C20_exception_at_the_predicate', 'C20_exception_passthrough',
             'C20_exception_passthrough_variadic', 'C20_engine_with_exceptions_refines', 'C20_exception_provenance',
-            'C20_exception_unchanged', 'C20_plain_is_machine']
+            'C20_exception_unchanged', 'C20_plain_is_machine', 'C20_rows_related', 'C20_native_equals_compiled_facts_rel',
+            'C20_native_equals_compiled_facts_renaming', 'C20_ground_rows_special_case', 'C20_native_equals_compiled_facts_same_answer_refuted',
+            'C20_subset_interchangeable_rel', 'C20_subset_interchangeable_renaming']
 IMPORTS = ['Lang.Ast', 'Sem.Machine', 'Sem.RunSem', 'Sem.Native', 'Sem.RunNative']
 CASE_TIMEOUT = 30
 COQ_CHUNK = 12
@@ -326,6 +328,10 @@ def compare(case, io, mo):
         r = compare_phase(case, io['A0'], None, mo[0], [case['native'][i] for i in case['pre']], case['pre'])
         if r:
             return 'first round (Python predicates %s registered): %s' % ([case['native'][i]['name'] for i in case['pre']], r)
+    # the rows given to the model for each Python predicate are NativeRename.row_of_src of the program's facts (computed in Coq)
+    for spec, pair in zip(case['native'], mo[-1][-1][0]):
+        if pair[0] != pair[1] and not (spec['style'] == 'variadic' and not pair[0]):
+            return 'Python predicate %s: the rows of the check %s are not row_of_src of the facts %s' % (spec['name'], pair[0], pair[1])
     return compare_phase(case, io['A'], io['B'], mo[-1], case['native'])
 
 def compare_phase(case, ioA, ioB, mo, natives, tagmap=None):
@@ -636,7 +642,7 @@ def nontrivial(case, io):
 
 def distribution(cases, obs):
     d = {'style': {}, 'yield': {}, 'form': {}, 'natives_per_case': {}, 'queried_before_registration': sum(1 for c in cases if c.get('pre') is not None), 're_registered': sum(1 for c in cases if c.get('decoy') and c.get('pre')), 'raising': 0, 'with_dynamic_facts': 0, 'ends_A': {},
-         'python_predicate_calls': 0, 'constructs': {}}
+         'python_predicate_calls': 0, 'constructs': {}, 'replaced_rows': {}}
     for c, o in zip(cases, obs):
         for s in c['native']:
             for k in ('style', 'yield', 'form'):
@@ -644,6 +650,14 @@ def distribution(cases, obs):
         n = str(len(c['native']))
         d['natives_per_case'][n] = d['natives_per_case'].get(n, 0) + 1
         d['raising'] += any(s.get('raise') is not None for s in c['native'])
+        # rows of the replaced predicates by the class the theorems for rows with variables distinguish (Sem/NativeRename.v)
+        facts = fact_preds(numbered(c))
+        for s in c['native']:
+            for row in facts.get((s['name'], s['arity']), []):
+                tops = [a[1] for a in row if a[0] == 'var']
+                nv = row_terms(row)[1]
+                k = 'ground' if nv == 0 else ('aliased argument (checked only)' if any(tops.count(v) == 1 for v in tops) else 'variables, no aliased argument (proved)')
+                d['replaced_rows'][k] = d['replaced_rows'].get(k, 0) + 1
         d['with_dynamic_facts'] += bool(c['dyn'])
         cs = set()
         for _, _, b in c['clauses']:
